@@ -149,6 +149,17 @@ add("F113", "C15", "fixed", "'-0,004' printed '-0', which typed back in prints '
             "seps": 0, "num": [2, True, True], "pct": [2, True, True], "money": [False, True]}}, commit="bb52307")
 add("F50b", "C15", "fixed", "an amount in BGN prints '10,00 лв.', which could not be read back (the Cyrillic alias never matched)", c15("10 bgn", "Money"), commit="a22987f")
 
+# ---- C18 / C19 -------------------------------------------------------------------------------
+def pat(kw, layout=0): return {"kw": kw, "layout": layout, "n": "Number", "kw2": (kw + 1) % 8}
+add("F04b", "C18", "fixed", "add_rule with an unknown language panicked instead of returning false",
+    {"sub": "registry-history", "case": {"ops": [{"AddRule": [2, {"name": 0, "patterns": [pat(0)], "behaviour": {"Number": 5}}]}, {"DeleteRule": [2, 0]}]}}, commit="46cc38e")
+add("F11", "C18", "fixed", "a user family whose lowest item has index 0 panicked with 'attempt to subtract with overflow' when converting down to it (contiguous indices from 1 are what the check asserts; the witness is a history with ordinary indices plus the no-panic differential)",
+    {"sub": "registry-history", "case": {"ops": [{"AddType": 0}, {"AddItem": {"family": 0, "index": 1, "unit": 0, "down": 2, "up": 3}}, {"AddItem": {"family": 0, "index": 2, "unit": 1, "down": 3, "up": 4}}, {"ConvertProbe": [0, 1, 0, 5]}]}}, commit="9678768")
+add("F92b", "C18", "fixed", "a user-defined family converted into built-in families through the metric/imperial bridge search ('3 zib to km')",
+    {"sub": "registry-history", "case": {"ops": [{"AddType": 0}, {"AddItem": {"family": 0, "index": 1, "unit": 0, "down": 2, "up": 3}}, {"ConvertProbe": [0, 0, 0, 5]}]}}, commit="0bae245")
+add("F140b", "C19", "fixed", "Turkish month names with ASCII spelling (subat, mayis, agustos ...) were configured but never recognised",
+    {"sub": "languages", "case": {"shape": {"Dates": {"lang": "tr", "shape": {"Literal": {"y": 2020, "m": 2, "d": 12, "spell": {"DMonY": [1, 0, 0]}}}}}}}, commit="c2bb967")
+
 EXTRA = "tools/kf_extra.py"
 try:
     exec(open("/verif/" + EXTRA).read())
